@@ -6,6 +6,9 @@ import PeliteModel.Driver.Rich
 import PeliteModel.Driver.Pattern
 import PeliteModel.Driver.Version
 import PeliteModel.Driver.Scan
+import PeliteModel.Driver.Walk
+import PeliteModel.Driver.Imports
+import PeliteModel.Driver.Exports
 -- IMPORT-MARKER (add `import PeliteModel.Driver.<M>` above this line)
 /-! `model`: the line-protocol driver.  One answer line per operation line; the part after ` ## `
 is the executable specification's answer and whether the input meets the theorem's hypotheses. -/
@@ -20,6 +23,9 @@ def handlers : List Handler := [
   , dispatchPattern
   , dispatchVersion
   , dispatchScan
+  , dispatchWalk
+  , dispatchImports
+  , dispatchExports
   -- HANDLER-MARKER (add `, dispatch<M>` above this line)
   ]
 
